@@ -1017,7 +1017,17 @@ pub fn exec(op: &str, a: &[&str]) -> Option<String> {
                 Err(_) => return Some("err".to_string()),
             };
             let off = a.get(2).map(|d| s2d(d));
-            Some(res_text(fmt_to_string(&formatter_for(s2e(a[1]), fmt, off))))
+            let text = fmt_to_string(&formatter_for(s2e(a[1]), fmt, off));
+            if let Some(d) = off {
+                // the other way of building the same formatter: Formatter::new on the shifted epoch, then set_timezone
+                // (seeded change C19-12 cached the %z fields at construction and never refreshed them in set_timezone)
+                let mut f2 = Formatter::new(s2e(a[1]) + d, fmt);
+                f2.set_timezone(d);
+                if fmt_to_string(&f2).ok() != text.clone().ok() {
+                    return Some("entry-points-differ".to_string());
+                }
+            }
+            Some(res_text(text))
         }
         "format_ts" => {
             let fmt = match Format::from_str(&hex2str(a[0])) {
